@@ -905,25 +905,23 @@ fn main() {
                     ed.ins(f.sig_end, format!("{}\n    ,\n", c.t.text), vc_origin(&c.t, &fq, "requires", &c.label));
                 }
             }
-            if canary && f.block.is_some() && !fc.attrs.iter().any(|a| a.text.contains("external")) {
-                if fc.ensures.is_empty() {
-                    ed.ins(f.sig_end, "\n    ensures\n".into(), Origin::Vc { file: fc.file.clone(), line: fc.line, func: fq.clone(), kind: "kw".into(), label: String::new() });
-                }
-            }
             if !fc.ensures.is_empty() {
                 ed.ins(f.sig_end, "\n    ensures\n".into(), Origin::Vc { file: fc.file.clone(), line: fc.line, func: fq.clone(), kind: "kw".into(), label: String::new() });
                 for c in &fc.ensures {
                     ed.ins(f.sig_end, format!("{}\n    ,\n", c.t.text), vc_origin(&c.t, &fq, "ensures", &c.label));
                 }
             }
-            if canary && f.block.is_some() && !fc.attrs.iter().any(|a| a.text.contains("external")) {
-                ed.ins(f.sig_end, "        false\n    ,\n".into(), Origin::Vc { file: fc.file.clone(), line: fc.line, func: fq.clone(), kind: "ensures".into(), label: "CANARY".into() });
-            }
             if !fc.prologue.is_empty() {
                 let (open, _) = f.block.unwrap_or_else(|| die(&format!("{}:{}: @prologue on bodiless {}", fc.file, fc.line, fc.path)));
                 for p in &fc.prologue {
                     ed.ins(open + 1, format!("\n{}\n", p.text), vc_origin(p, &fq, "hint", ""));
                 }
+            }
+            if canary && f.block.is_some() && !fc.attrs.iter().any(|a| a.text.contains("external")) {
+                // vacuity canary: with the contract unchanged, `assert(false)` at the start of the body must FAIL
+                // (it verifies only if the preconditions are contradictory or an assumption in scope is inconsistent)
+                let (open, _) = f.block.unwrap();
+                ed.ins(open + 1, "\n        assert(false); /*CANARY*/\n".into(), Origin::Vc { file: fc.file.clone(), line: fc.line, func: fq.clone(), kind: "canary".into(), label: "CANARY".into() });
             }
             for at in &fc.ats {
                 let (bs, be) = f.block.unwrap_or_else(|| die(&format!("{}:{}: @at on bodiless {}", fc.file, fc.line, fc.path)));
